@@ -795,7 +795,13 @@ func countOps(plan json.RawMessage) int {
 		Ops []json.RawMessage `json:"ops"`
 	}
 	_ = json.Unmarshal(plan, &p)
-	return len(p.Ops)
+	n := 0
+	for _, o := range p.Ops {
+		if !bytes.Contains(o, []byte(`"kind":"noop"`)) {
+			n++
+		}
+	}
+	return n
 }
 
 // minimise: delta debugging over plan operations, then over the schedule.
